@@ -199,7 +199,24 @@ fn run_v6(a: &Args) -> Report {
             rep.violation(if plain { "C18:plain-ip-allowlist-entry-rejected" } else { "C18:cidr-allowlist-entry-rejected" }, jo! {"what" => "the builder rejected an allowlist entry written in a documented form (an IP address or a subnet)", "entry" => entry, "error" => err});
             continue;
         }
-        let built = runtime.block_on(async { b.build() });
+        let mut built = runtime.block_on(async { b.build() });
+        let (mut port, mut dst) = (port, dst);
+        for _ in 0..8 {
+            if built.is_ok() {
+                break;
+            }
+            port = {
+                let l = TcpListener::bind((v6, 0)).unwrap();
+                l.local_addr().unwrap().port()
+            };
+            dst = SocketAddr::new(std::net::IpAddr::V6(v6), port);
+            let listen = if dual { SocketAddr::new(std::net::IpAddr::V6(std::net::Ipv6Addr::UNSPECIFIED), port) } else { dst };
+            let mut nb = PrometheusBuilder::new().with_http_listener(listen);
+            for e in &list {
+                nb = nb.add_allowed_address(e).expect("accepted before");
+            }
+            built = runtime.block_on(async { nb.build() });
+        }
         let (rec, fut) = match built {
             Ok(x) => x,
             Err(e) => {
@@ -312,7 +329,24 @@ pub fn run(a: &Args) -> Option<Report> {
             );
             continue;
         }
-        let built = runtime.block_on(async { b.build() });
+        let mut built = runtime.block_on(async { b.build() });
+        let (mut port, mut dst) = (port, dst);
+        for _ in 0..8 {
+            if built.is_ok() {
+                break;
+            }
+            // the port picked a moment ago was taken in the meantime (other shards use ephemeral ports too): pick again
+            port = {
+                let l = TcpListener::bind("127.0.0.1:0").unwrap();
+                l.local_addr().unwrap().port()
+            };
+            dst = SocketAddrV4::new(Ipv4Addr::new(127, 0, 0, 1), port);
+            let mut nb = PrometheusBuilder::new().with_http_listener(SocketAddr::V4(SocketAddrV4::new(Ipv4Addr::new(0, 0, 0, 0), port)));
+            for e in &list {
+                nb = nb.add_allowed_address(e).expect("accepted before");
+            }
+            built = runtime.block_on(async { nb.build() });
+        }
         let (rec, fut) = match built {
             Ok(x) => x,
             Err(e) => {
